@@ -350,7 +350,18 @@ def judge_model(model: str, scen: Dict[str, Any], points: List[int], cont: int, 
                         pc_exec = A[k + i]["regs"]["PC"]
                         if model == "py" and A[k + 1 + i]["irq"]["total"] != A[k + i]["irq"]["total"]:
                             pc_exec = A[k + 1 + i]["irq"]["last"][2] or pc_exec
-                        cat += " after " + instr_class(scen, pc_exec)
+                        ic = instr_class(scen, pc_exec)
+                        if cat == "regs":
+                            # only a device/memory read localises a data divergence; everything else is a
+                            # control-flow or asynchronous effect and gets one generic bucket
+                            if "regs.PC" in names or "regs.S" in names:
+                                cat = "regs (control flow)"
+                            elif ic.startswith("MV A, (") or ic.startswith("MV A, ["):
+                                cat = "regs after " + ic
+                            else:
+                                cat = "regs (data)"
+                        else:
+                            cat = "mem after " + ic if ic.startswith("MV [") else "mem"
                     elif cat == "imem":
                         cat = "+".join(sorted(n for n in names if n.startswith("imem.")))
                     verdict = Violation(sub, where, f"diverges later: {cat}", case_for(k),
@@ -596,8 +607,8 @@ def _shard(task: Tuple[int, int, int, str, int, int, int]) -> Report:
 def run(ctx: Ctx) -> Report:
     rsclient.build()
     S.selftest()
-    nscen = ctx.pick(48, 480)
-    n = ctx.pick(40, 100)
+    nscen = ctx.pick(48, 192)
+    n = ctx.pick(40, 64)
     cont = ctx.pick(40, 40)
     nshards = 16 if ctx.quick else 64
     reports = ctx.pmap(_shard, [(i, nshards, ctx.seed, ctx.tier, nscen, n, cont) for i in range(nshards)])
